@@ -83,14 +83,14 @@ pub struct AppTargetFile {
         }
     }
     impl AppTargetFile {
-//!fn src/app/target.rs AppTargetFile::new props=C11
+//!fn src/app/target.rs AppTargetFile::new props=C11,C05
     pub(crate) fn new(
         name: &str,
         def: Option<&core::FileDefinition>,
         search_path: &path::Path,
         work_path: &path::Path,
     ) -> ⟦(r: ⟧Self⟦)⟧
-@        ensures file_ok(name@, def, search_path@, work_path@, r.path), // [C11]
+@        ensures file_ok(name@, def, search_path@, work_path@, r.path), // [C11,C05]
     {
         let p = match def {
             Some(def) => {
